@@ -112,8 +112,8 @@ def reorderBlock (tok : String) : Option Model.Reorder.Blk :=
           if k = 0 then none
           else match o with
             | "o" => some ⟨k + 1, k⟩
-            | "n" => some ⟨1000 + k, 2000 + k⟩
-            | "w" => some ⟨3000 + k, k - 1⟩
+            | "n" => some ⟨1000000 + k, 2000000 + k⟩
+            | "w" => some ⟨3000000 + k, k - 1⟩
             | _ => none
         | none => none
       | _ => none
@@ -121,7 +121,7 @@ def reorderBlock (tok : String) : Option Model.Reorder.Blk :=
   | _ => none
 
 def reorderIndex (b : Model.Reorder.Blk) : String :=
-  if b.id ≥ 3000 then toString (b.id - 3000 - 1) else if b.id ≥ 1000 then s!"x{b.id}" else toString (b.id - 1)
+  if b.id ≥ 3000000 then toString (b.id - 3000000 - 1) else if b.id ≥ 1000000 then s!"x{b.id}" else toString (b.id - 1)
 
 def reorderRun (from_ n events : String) : Option String := do
   let lo ← from_.toNat?
